@@ -22,6 +22,9 @@ structure Opts where
   deriving Repr, DecidableEq
 
 structure Interp (σ V : Type) where
+  /-- the instance's `lags` / `leads` attributes (copied from `LAGS` / `LEADS` at construction). -/
+  lags : Nat
+  leads : Nat
   /-- `get_check_values()` at period index `t`. -/
   check : σ → Int → V
   /-- `not np.any(~np.isfinite(v))`. -/
@@ -45,7 +48,7 @@ structure World (σ : Type) where
 inductive Result where
   | ret (solved : Bool)
   | valueError                      -- min_iter > max_iter
-  | indexError                      -- offset outside the span
+  | indexError                      -- period without room for the lags/leads, or offset outside the span
   | solutionError (chained : Bool)  -- chained = raised `from` another exception
   | nonConvergence
   | badErrorsArg                    -- ValueError: invalid `errors` argument met a non-finite value
@@ -124,6 +127,7 @@ def solveCore {σ V} (I : Interp σ V) (o : Opts) (n : Nat) (t : Int) (w : World
 /-- `BaseModel.solve_t(t, **opts)` for `-n ≤ t < n`. -/
 def solveT {σ V} (I : Interp σ V) (o : Opts) (n : Nat) (t : Int) (w : World σ) : World σ × Result :=
   if o.minIter > o.maxIter then (w, .valueError)
+  else if normT n t - I.lags < 0 ∨ normT n t + I.leads ≥ n then (w, .indexError)
   else if o.offset ≠ 0 ∧ normT n t + o.offset < 0 then (w, .indexError)
   else if o.offset ≠ 0 ∧ normT n t + o.offset ≥ n then (w, .indexError)
   else solveCore I o n t w (seed I o t w.user)
@@ -195,6 +199,8 @@ inductive Event where
 
 /-- The same model with every solver-initiated call recorded. -/
 def logged {σ V} (I : Interp σ V) : Interp (σ × List Event) V where
+  lags := I.lags
+  leads := I.leads
   check u t := I.check u.1 t
   allFinite := I.allFinite
   close := I.close
@@ -224,6 +230,8 @@ inductive TraceLabel where
     snapshots); `snap u t` is the column `trace_t` extracts.  With `on = false` nothing is recorded. -/
 def traced {σ V S} (I : Interp σ V) (snap : σ → Int → S) (on : Bool) :
     Interp (σ × List (TraceLabel × S)) V where
+  lags := I.lags
+  leads := I.leads
   check u t := I.check u.1 t
   allFinite := I.allFinite
   close := I.close
